@@ -10,6 +10,7 @@ import re
 
 from kvstatic import flow, rt, util
 from kvstatic.effects import Effects
+from kvstatic.facts import strip_generics
 
 MANIFEST = {
     'text': 'Decides the gating structure on every CFG path of the read and write paths of the tiered engine: source→sink checks with '
@@ -50,6 +51,246 @@ def match_edges(body, vcall, of):
             elif re.match(r'^eq\[.*CanonicalVectorState::Match.*\]$', p) and 'canonical_vector_state' in p:
                 out.append((i, tg))
     return out
+
+
+# ---------------------------------------------------------------------- equivalent shapes of "the hot operand is a validated candidate list" (R1, C06.R3)
+_SUCCESS = ('Ok', 'Some', 'Continue')
+_FAILURE = ('Err', 'None', 'Break')
+
+
+def _variant_of(a):
+    """Variant a value is known to be: an enum aggregate names it; `FromResidual::from_residual` only ever builds the failure variant (Err / None / Break)."""
+    if a[0] == 'agg' and '::' in a[1] and not a[1].startswith(('closure', 'coroutine')):
+        return a[1].rsplit('::', 1)[-1]
+    if a[0] == 'call' and len(a) > 3 and a[3] is not None and a[3].is_('core::ops::try_trait::FromResidual::from_residual'):
+        return 'Err'
+    return None
+
+
+def _compatible(want, have):
+    """Can a value known to be variant `have` be read as variant `want`?  (`?` is elided by the origin walk: Ok ≙ Continue, Err ≙ Break.)"""
+    if want == have:
+        return True
+    return (want in _SUCCESS and have in _SUCCESS) or (want in _FAILURE and have in _FAILURE)
+
+
+def value_alternatives(e):
+    """flow.top_alternatives with the two things a flow-insensitive phi loses put back: an alternative that is known to be ANOTHER variant than the one a downcast reads
+    (the Err / from_residual exit of an inlined fallible helper under the caller's `?`: that value only ever takes the Break edge) is not a value of the expression,
+    and the payload / tuple component a projection reads from an aggregate alternative is that operand itself.  May return [] (no feasible value)."""
+    t = e[0]
+    if t == 'phi':
+        return [x for a in e[1] for x in value_alternatives(a)]
+    if t == 'downcast':
+        out = []
+        for a in value_alternatives(e[1]):
+            v = _variant_of(a)
+            if v is not None and not _compatible(e[2], v):
+                continue
+            out.append(('downcast', a, e[2]))
+        return out
+    if t == 'field':
+        out = []
+        m = re.search(r'\.(\d+)$', e[2])
+        for a in value_alternatives(e[1]):
+            inner = a[1] if a[0] == 'downcast' else a
+            proj = m is not None and inner[0] == 'agg' and int(m.group(1)) < len(inner[2]) and (
+                (a[0] == 'downcast' and _variant_of(inner) is not None and len(inner[2]) == 1 and int(m.group(1)) == 0) or
+                (a[0] != 'downcast' and inner[1] == 'tuple' and re.match(r'^\.\d+$', e[2])))
+            if proj:
+                out += value_alternatives(inner[2][int(m.group(1))])
+            else:
+                out.append(('field', a, e[2]))
+        return out
+    if t in ('cast', 'index'):
+        return [(t, a) + tuple(e[2:]) for a in value_alternatives(e[1])]
+    return [e]
+
+
+_VEC_CTOR = r'(^|::)Vec(<.*>)?::(new|with_capacity)$'
+_MUT_PTR = re.compile(r"^(&('\w+ )?mut |\*mut )")
+
+
+def is_vec_ctor(a):
+    return a[0] == 'call' and len(a) > 3 and a[3] is not None and bool(a[3].callee) and bool(re.search(_VEC_CTOR, a[3].callee))
+
+
+def vec_pushes(body, ctor, harmless=()):
+    """The vector built by `ctor` (a Vec::new / Vec::with_capacity call of `body`) receives elements only through Vec::push: returns the push calls, or None when a
+    mutable borrow of it (any `&mut` / `*mut` local whose origin is the constructor call — re-borrows, copies, the IntoIter it is turned into) is used in any other
+    way: passed to another callee (extend, insert, append, index_mut, swap, a helper …), captured by a closure, stored.  `Iterator::next` on it and the callees in
+    `harmless` (regexes; they can neither add nor replace an element) are allowed."""
+    of = flow.Origin(body)
+    is_v = lambda tr: any(a[0] == 'call' and len(a) > 3 and a[3] is ctor for a in flow.top_alternatives(tr))
+    M = set(l for l, ty in enumerate(body.locals) if _MUT_PTR.match(ty) and is_v(of.of_local(l)))
+    opl = lambda o: o['pl']['l'] if isinstance(o, dict) and o.get('k') in ('cp', 'mv') else None
+    live = body.live_blocks()
+    pushes = []
+    for i, blk in enumerate(body.blocks):
+        if i not in live:
+            continue
+        for st in blk['s']:
+            rv = st.get('rv')
+            if not rv:
+                continue
+            k = rv['k']
+            if k == 'agg':
+                if any(opl(o) in M for o in rv['ops']):
+                    return None       # captured by a closure / stored in a value
+                continue
+            src = rv['pl']['l'] if k in ('ref', 'rawptr') else opl(rv['a']) if k in ('use', 'cast', 'repeat') else None
+            if src in M and (st['pl'].get('p') or st['pl']['l'] not in M):
+                return None           # the borrow leaves the locals this census follows
+        t = blk['t']
+        if t['k'] in ('call', 'tailcall'):
+            c = body.call_at(i)
+            idx = [j for j, a in enumerate(c.args) if opl(a) in M]
+            if not idx:
+                continue
+            if c.callee and re.search(r'(^|::)Vec(<.*>)?::push$', c.callee) and idx == [0] and len(c.args) == 2:
+                pushes.append(c)
+            elif c.callee and idx == [0] and (c.is_('re:Iterator>::next$') or any(re.search(h, c.callee) for h in harmless)):
+                continue
+            else:
+                return None
+    return pushes
+
+
+def _is_filter_call(a):
+    return a[0] == 'call' and len(a) > 3 and a[3] is not None and bool(a[3].callee) and a[3].callee.endswith('TieredEngine::filter_hot_knn_results_to_canonical')
+
+
+def _element_of(a):
+    """`a` is the item an iterator hands out — `it.next()` read on its Some edge (`?` after ok_or / unwrap are elided by the origin walk): returns the tree of what is
+    iterated, else None."""
+    if a[0] == 'field' and a[1][0] == 'downcast' and a[1][2] in _SUCCESS and re.search(r'(^|::)%s\.0$' % a[1][2], a[2]):
+        a = a[1][1]
+    if a[0] == 'call' and len(a) > 3 and a[3] is not None and a[3].is_('re:Iterator>::next$') and len(a[2]) == 1:
+        return a[2][0]
+    return None
+
+
+def hot_candidates_validated(prog, b, tree):
+    """C04.R1 / C06.R3: the hot operand of a merge_knn_results call in body `b` (origin `tree`) is a list that passed filter_hot_knn_results_to_canonical."""
+    def by_text(a):
+        if re.search(r'filter_hot_knn_results_to_canonical\(|^Vec::new\(\)$|^vec::Vec<.*>::new\(\)$', a):
+            return True
+        # produced by mapping a closure over the queries: the closure must return the filtered candidates
+        cids = re.findall(r'closure:([^{ ]*\{closure#\d+\}(?:::\{closure#\d+\})*)', a)
+        for cid in cids:
+            for fb in prog.family(b):
+                if fb.id.endswith(cid) and fb.calls_to('TieredEngine::filter_hot_knn_results_to_canonical'):
+                    if 'filter_hot_knn_results_to_canonical(' in flow.render(flow.Origin(fb).of_local(0)):
+                        return True
+        return False
+    if all(by_text(flow.render(a)) for a in flow.top_alternatives(tree)):
+        return True
+    # The same guarantee in other clothes, decided on the trees (strictly: the value IS the filter's result, not merely mentions it):
+    #  · every value the operand can really take (value_alternatives: the Err exit of an inlined fallible helper is not a value read on the Continue edge of the
+    #    caller's `?`; the component read out of the helper's Ok((hot, cold)) is `hot`) is the result of filter_hot_knn_results_to_canonical or an empty Vec::new();
+    #  · or it is an element of a vector that is built empty in this body and receives elements only by Vec::push (vec_pushes: no other use of a mutable borrow),
+    #    every pushed value being validated in the same sense — the for-loop spelling of `queries.iter().map(|q| filter(search(q))).collect()`;
+    #  · or an element of collect(map(.., closure)) whose closure returns such a value.
+    def by_tree(body, a, depth=0):
+        if depth > 3:
+            return False
+        if _is_filter_call(a) or (is_vec_ctor(a) and a[3].callee.endswith('::new') and not a[2]):
+            return True
+        src = _element_of(a)
+        if src is None:
+            return False
+        xs = value_alternatives(src)
+        if not xs:
+            return False
+        bo = flow.Origin(body)
+        for x in xs:
+            if is_vec_ctor(x) and x[3].body is body:
+                ps = vec_pushes(body, x[3])
+                if ps is None:
+                    return False
+                for p_ in ps:
+                    es = value_alternatives(bo.of_operand(p_.args[1]))
+                    if not es or not all(by_tree(body, e_, depth + 1) for e_ in es):
+                        return False
+            elif x[0] == 'call' and x[3] is not None and x[3].is_('re:Iterator::collect$') and len(x[2]) == 1 and x[2][0][0] == 'call' and \
+                    x[2][0][3] is not None and x[2][0][3].is_('re:Iterator::map$') and len(x[2][0][2]) == 2 and x[2][0][2][1][0] == 'agg' and x[2][0][2][1][1].startswith('closure:'):
+                cid = strip_generics(x[2][0][2][1][1].split(':', 1)[1])
+                fbs = [fb for fb in prog.family(body) if strip_generics(fb.id) == cid]
+                if len(fbs) != 1:
+                    return False
+                es = value_alternatives(flow.Origin(fbs[0]).of_local(0))
+                if not es or not all(by_tree(fbs[0], e_, depth + 1) for e_ in es):
+                    return False
+            else:
+                return False
+        return True
+    alts = value_alternatives(tree)
+    return bool(alts) and all(by_tree(b, a) for a in alts)
+
+_ELEMENTWISE = ('Iterator::copied', 'Iterator::cloned', 'slice::iter')
+
+
+def _strip_adaptors(t):
+    """Look through iterator adaptors that hand out every element of what they wrap, once, unchanged (`.iter()`, `.copied()`, `.cloned()`); nothing that can drop,
+    repeat or replace elements (filter, take, skip, step_by, chain, map …) is looked through."""
+    while t[0] == 'call' and len(t) > 3 and t[3] is not None and t[3].callee and len(t[2]) == 1 and flow.short(t[3].callee) in _ELEMENTWISE:
+        t = t[2][0]
+    return t
+
+
+def invalidation_loop(f):
+    """The `for` loop of `f` around its CacheStrategy::invalidate call (R4 "every id"): what it iterates (adaptors that keep every element looked through; `src` with
+    user variables kept as names, `full` fully expanded), whether every iteration invalidates (`every`), whether the loop can be left other than by exhaustion
+    (`escapes`), whether the invalidated id is the loop item (`item`), and the exhaustion edges of the head."""
+    iv = [c for c in f.calls if (c.orig or '').endswith('CacheStrategy::invalidate')]
+    if not iv:
+        return None
+    hs = [h for h in f.calls if h.callee and h.is_('re:Iterator>::next$') and f.dominates(h.bb, iv[0].bb) and h.bb in f.reach([iv[0].bb])]
+    if not hs:
+        return None
+    inner = [h for h in hs if all(f.dominates(o.bb, h.bb) for o in hs)]
+    h = inner[0] if inner else hs[-1]
+    l = h.args[0]['pl']['l'] if h.args and h.args[0].get('pl') else None
+    for _ in range(4):      # the argument is a temp `_t = &mut iter` (as util.loop_source)
+        nxt = None
+        for d in f.defs.get(l, []):
+            if d[2] == 'assign' and d[3]['rv']['k'] == 'ref':
+                nxt = d[3]['rv']['pl']['l']
+        if nxt is None:
+            break
+        l = nxt
+    if l is None:
+        return None
+    of = flow.Origin(f)
+    s_e, f_e = flow.outcome_edges(f, h)
+    starts = [e[1] for e in (s_e or [])]
+    ivb = [c.bb for c in iv]
+    inside = f.reach(starts, avoid_blocks=[h.bb])
+    rets = set(f.return_blocks())
+    return {'head': h, 'src': flow.render(_strip_adaptors(flow.Origin(f, stop_at_vars=True).of_local(l))), 'full': _strip_adaptors(of.of_local(l)),
+            'every': bool(starts) and h.bb not in f.reach(starts, avoid_blocks=ivb),
+            'escapes': sorted(x for x in inside if h.bb not in f.reach([x]) and rets & f.reach([x])),
+            'item': all(len(c.args) > 1 and contains_call(of.of_operand(c.args[1]), h) for c in iv if c.bb in inside) and any(c.bb in inside for c in iv),
+            'exhaust': list(f_e or [])}
+
+
+def _ids_of_documents(prog, f, t):
+    """`t` (origin of the list a bulk-load invalidation loop iterates) is  documents.iter().map(|d| d.0).collect()  over the `documents` parameter: the ids of exactly
+    the documents handed to the bulk load."""
+    if not (t[0] == 'call' and t[3] is not None and t[3].is_('re:Iterator::collect$') and len(t[2]) == 1):
+        return False
+    m = t[2][0]
+    if not (m[0] == 'call' and m[3] is not None and m[3].is_('re:Iterator::map$') and len(m[2]) == 2):
+        return False
+    it, cl = _strip_adaptors(m[2][0]), m[2][1]
+    if not (it[0] == 'arg' and it[2] == 'documents') or not (cl[0] == 'agg' and cl[1].startswith('closure:') and not cl[2]):
+        return False
+    cid = strip_generics(cl[1].split(':', 1)[1])
+    fbs = [fb for fb in prog.family(f) if strip_generics(fb.id) == cid]
+    if len(fbs) != 1:
+        return False
+    r = flow.Origin(fbs[0]).of_local(0)
+    return r[0] == 'field' and r[2] == '.0' and r[1][0] == 'arg' and r[1][1] == 2
 
 
 def validator_guards(ctx, prog, rid):
@@ -206,19 +447,7 @@ def run(ctx, prog):
         of = flow.Origin(b)
         n_merge += 1
         r = flow.render(of.of_operand(c.args[0]))
-        alts = [flow.render(a) for a in flow.top_alternatives(of.of_operand(c.args[0]))]
-        def _validated(a):
-            if re.search(r'filter_hot_knn_results_to_canonical\(|^Vec::new\(\)$|^vec::Vec<.*>::new\(\)$', a):
-                return True
-            # produced by mapping a closure over the queries: the closure must return the filtered candidates
-            cids = re.findall(r'closure:([^{ ]*\{closure#\d+\}(?:::\{closure#\d+\})*)', a)
-            for cid in cids:
-                for fb in prog.family(b):
-                    if fb.id.endswith(cid) and fb.calls_to('TieredEngine::filter_hot_knn_results_to_canonical'):
-                        if 'filter_hot_knn_results_to_canonical(' in flow.render(flow.Origin(fb).of_local(0)):
-                            return True
-            return False
-        ok = all(_validated(a) for a in alts)
+        ok = hot_candidates_validated(prog, b, of.of_operand(c.args[0]))
         k = sum(1 for x in ctx.instances if x.get('config') == ctx.config and x['rule'] == 'C04.R1' and x['key'].startswith('C04.R1 | %s | merge' % b.short.split('::{')[0]))
         ctx.inst('C04.R1', b.short.split('::{')[0], 'merge #%d gets validated hot candidates' % k, ok, 'hot operand: %s' % r[:160])
     ctx.floor('C04.R1', 'merge_knn_results call sites', n_merge, 3, 'single, batch, timed')
@@ -355,21 +584,41 @@ def run(ctx, prog):
     trues = [i for i, blk in enumerate(td.blocks) for st in blk['s'] if st.get('rv', {}).get('k') == 'agg' and st['rv'].get('variant') == 'Ok' and st['pl']['l'] == 0 and st['rv']['ops'] and st['rv']['ops'][0].get('int') == 1]
     r0 = td.reach([0], avoid_blocks=invd)
     ctx.inst('C04.R4', td.short, 'Ok(true) only after the L1a entry was invalidated', bool(trues) and bool(invd) and not any(x in r0 for x in trues), 'Ok(true) blocks %s' % trues)
-    for fn in ('TieredEngine::batch_delete', 'TieredEngine::invalidate_caches_after_bulk_load'):
-        f = ctx.body('C04.R4', fn)
-        iv = [c for c in f.calls if (c.orig or '').endswith('CacheStrategy::invalidate')]
-        okl = False
-        src = ''
-        if iv:
-            hs = [h for h in f.calls if h.callee and h.is_('re:Iterator>::next$') and f.dominates(h.bb, iv[0].bb) and h.bb in f.reach([iv[0].bb])]
-            if hs:
-                src = util.loop_source(f, hs[-1])
-                okl = src in ('var:unique_doc_ids', 'arg:doc_ids')
-        ctx.inst('C04.R4', f.short, 'invalidates L1a for every id', okl, 'invalidation loop iterates %s' % src)
+    def _every_id(f, accept):
+        lp = invalidation_loop(f)
+        okl = lp is not None and bool(accept(lp)) and lp['every'] and not lp['escapes'] and lp['item']
+        why = '' if lp is None or okl else ''.join(
+            ([] if lp['every'] else ['; an iteration can reach the next one without the invalidation']) +
+            ([] if not lp['escapes'] else ['; the loop can be left before the list is exhausted (%s)' % f.loc_of(lp['escapes'][0])]) +
+            ([] if lp['item'] else ['; what is invalidated is not the loop item']))
+        ctx.inst('C04.R4', f.short, 'invalidates L1a for every id', okl, 'invalidation loop iterates %s%s' % (lp['src'] if lp else '', why))
+        return lp
+    by_name = lambda lp: lp['src'] in ('var:unique_doc_ids', 'arg:doc_ids')
+    _every_id(ctx.body('C04.R4', 'TieredEngine::batch_delete'), by_name)
     bl = ctx.body('C04.R4', 'TieredEngine::bulk_load_cold_tier')
-    ctx.inst('C04.R4', bl.short, 'bulk load invalidates after loading', bool(bl.calls_to('TieredEngine::invalidate_caches_after_bulk_load')) and
-             all(bl.calls_to('TieredEngine::invalidate_caches_after_bulk_load')[0].bb not in bl.reach([c.bb]) or True for c in bl.calls_to('HnswBackend::insert')) and
-             not any(x in bl.reach([0], avoid_blocks=[bl.calls_to('TieredEngine::invalidate_caches_after_bulk_load')[0].bb]) for x in bl.return_blocks()), '')
+    try:
+        helper = prog.body('TieredEngine::invalidate_caches_after_bulk_load')
+    except KeyError:
+        helper = None
+    if helper is None and invalidation_loop(bl) is None:
+        helper = ctx.body('C04.R4', 'TieredEngine::invalidate_caches_after_bulk_load')     # neither the helper nor its loop: anchor missing, as before
+    if helper is not None:
+        _every_id(helper, by_name)
+        ctx.inst('C04.R4', bl.short, 'bulk load invalidates after loading', bool(bl.calls_to('TieredEngine::invalidate_caches_after_bulk_load')) and
+                 all(bl.calls_to('TieredEngine::invalidate_caches_after_bulk_load')[0].bb not in bl.reach([c.bb]) or True for c in bl.calls_to('HnswBackend::insert')) and
+                 not any(x in bl.reach([0], avoid_blocks=[bl.calls_to('TieredEngine::invalidate_caches_after_bulk_load')[0].bb]) for x in bl.return_blocks()), '')
+    else:
+        # the single-use helper merged into its caller: the same loop stands in bulk_load_cold_tier itself. What the helper received as `doc_ids` must now be visible
+        # here — the ids of the documents handed to the bulk load, collected from the `documents` parameter — and every return lies behind the exhaustion of the loop,
+        # with no canonical insert after it
+        lp = _every_id(bl, lambda lp_: _ids_of_documents(prog, bl, lp_['full']))
+        r0 = bl.reach([0], avoid_edges=lp['exhaust'])
+        after = bl.reach([e[1] for e in lp['exhaust']])
+        late = [c for c in bl.calls_to('HnswBackend::insert') if c.bb in after]
+        ctx.inst('C04.R4', bl.short, 'bulk load invalidates after loading', bool(lp['exhaust']) and not any(x in r0 for x in bl.return_blocks()) and not late,
+                 'invalidation loop written in place (no invalidate_caches_after_bulk_load helper); %s' % (
+                     'a return is reachable without running the loop to its end' if any(x in r0 for x in bl.return_blocks()) else
+                     ('cold_tier.insert at %s can run after the invalidation' % late[0].loc) if late else 'every return is behind its exhaustion edge, no canonical insert after it'))
     hb = ctx.body('C04.R4', 'HnswBackend::insert')
     hv = flow.Origin(hb, stop_at_vars=True)
     hf = flow.Origin(hb)
